@@ -1325,7 +1325,16 @@ ADVANCE_TO_APP_DATA:
 #ifdef USE_DTLS
         if (ACTV_VER(ssl, v_dtls_any))
         {
-            if (ssl->hsState != SSL_HS_FINISHED)
+            if (ssl->hsState != SSL_HS_FINISHED
+# ifdef USE_STATELESS_SESSION_TICKETS
+                /* A client whose ticket the server accepted without saying
+                   so in its ServerHello (RFC 5077 3.4) learns it from this
+                   very message: the arms below turn the handshake into an
+                   abbreviated one. Not an out of order record. */
+                && !(!(ssl->flags & SSL_FLAGS_SERVER) && ssl->sid != NULL &&
+                     ssl->sid->sessionTicketState == SESS_TICKET_STATE_IN_LIMBO)
+# endif
+                )
             {
                 /* Possible to get the changeCipherSpec message out of order */
                 psTraceIntInfo("Got out of order CCS: state %d\n", ssl->hsState);
